@@ -118,9 +118,9 @@ class _VersionMatch(GenericEquality, restriction.base):
 
     @staticmethod
     def _convert_ops(inst):
-        if inst.negate:
-            if inst.droprev:
-                return inst.vals
+        # negation folds into the operator set, except for ~ (droprev) where
+        # the complement is not expressible: there the flag itself is compared
+        if inst.negate and not inst.droprev:
             return tuple(sorted({-1, 0, 1}.difference(inst.vals)))
         return inst.vals
 
@@ -132,6 +132,7 @@ class _VersionMatch(GenericEquality, restriction.base):
                 self.droprev != other.droprev
                 or self.ver != other.ver
                 or self.rev != other.rev
+                or (self.droprev and self.negate != other.negate)
             ):
                 return False
             return self._convert_ops(self) == self._convert_ops(other)
@@ -140,7 +141,16 @@ class _VersionMatch(GenericEquality, restriction.base):
 
     # TODO: cached_hash?
     def __hash__(self):
-        return hash((self.droprev, self.ver, self.rev, self.negate, self.vals))
+        # must hash exactly what __eq__ compares
+        return hash(
+            (
+                self.droprev,
+                self.ver,
+                self.rev,
+                self.droprev and self.negate,
+                self._convert_ops(self),
+            )
+        )
 
 
 class VersionMatch(packages.PackageRestriction):
